@@ -62,6 +62,9 @@ def splitextRoot (p : Path) : Path :=
   | some i => if i == 0 || (b.take i).all (· == '.') then p else p.take (p.length - (b.length - i))
   | none => p
 
+/-- `p` is the directory `out` itself or lies below it (component-wise: `out/…`) -/
+def underB (out p : Path) : Bool := p == out || (out ++ ['/']).isPrefixOf p
+
 /-! ## abstract Python files and file system -/
 
 structure ImportFrom where
@@ -540,12 +543,15 @@ def newModuleNameOf (cfg : Cfg) (moduleRoot : Str) : Str :=
 def packagesOf (cfg : Cfg) (env : Env) : List Str :=
   env.allPackages.filter (fun p => (cfg.whitelist.isEmpty || cfg.whitelist.contains p) && !cfg.blacklist.contains p)
 
+/-- `elif dry_run: print("mkdir …") elif not path.isdir(output_directory): makedirs(output_directory)` -/
+def announceOut (cfg : Cfg) : M Unit := do
+  if cfg.dryRun then print (msg MKDIR cfg.out)
+  else if !(← isdir cfg.out) then makedirs cfg.out
+
 /-- `exmod(emit_name=<str>, …)`; `announce = false` is the continuation of the outer (list) call, whose `if` chain has
     already taken the first branch -/
 def exmodStr (cfg : Cfg) (env : Env) (emit : EmitKind) (announce : Bool) : M Unit := do
-  if announce then
-    if cfg.dryRun then print (msg MKDIR cfg.out)
-    else if !(← isdir cfg.out) then makedirs cfg.out
+  if announce then announceOut cfg
   let (moduleRoot, _, submodule) := rpartition cfg.module ['.']
   let newModuleName := newModuleNameOf cfg moduleRoot
   let sqlDir := join2 cfg.out SQLMOD
